@@ -10,7 +10,9 @@ from . import methods as M
 from .common import Disagreement, drive, q, qs, parse_qs, ROOT
 
 PROP_MODULE = 'PbVerif.Props.C07'
-RULE = ('cases = (host, x pattern, N, num_knots, spline_degree, diff_order, lam, user/default weights, iteration index): every spline '
+RULE = ('cases = (host, x pattern, x-axis magnitude kind (methods.X_MAGNITUDES: scales 1e-30 ... 1e30, huge offsets with a narrow range, negative '
+        'ranges - the exact-rational certificates are scale free; a call that raises / goes non-finite ONLY on such an axis while the same '
+        'call on the reference axis returns is reported), N, num_knots, spline_degree, diff_order, lam, user/default weights, iteration index): every spline '
         'produced along the iteration (coefficients c and returned B c captured at PSpline.solve_pspline / PSpline2D.solve) is checked, in '
         'exact rational arithmetic inside the Lean driver, against the DOCUMENTED system (B\'WB + lam D\'D) c = B\'W y built from the Cox-de '
         'Boor definition of B on the captured knots (iasls / drpls / aspls extras; Kronecker form in 2-D) with the weights in force at that '
@@ -134,7 +136,9 @@ def knots_problem(knots, x, num_knots, deg):
         return f'{len(knots)} knots instead of {len(want)}'
     span = float(np.max(x) - np.min(x))
     err = float(np.max(np.abs(knots - want)))
-    if err > 1e-12 * max(span, 1e-300) * (1 + deg):
+    # relative to the span, plus the rounding of the knots themselves (a few ulp of the largest knot: on 1.7e9 + [0, 1e3] or
+    # 1e6 + [0, 1e-3] no float grid is equally spaced to 1e-12 of the span)
+    if err > 1e-12 * max(span, 1e-300) * (1 + deg) + 8 * EPS * float(np.max(np.abs(want))):
         return f'knots differ from the equally spaced grid over the x-range by {err:.3g}'
     if knots[deg] != np.min(x) or knots[len(knots) - 1 - deg] != np.max(x):
         return 'the inner knots do not start / end exactly on the x-range'
@@ -194,23 +198,462 @@ def mat(a):
     return ';'.join(qs(r) for r in np.asarray(a, dtype=float))
 
 
+def interp_allowance(kind, sv, vec, p1):
+    """pspline_drpls / pspline_aspls scale the rows of lam D'D by an array interpolated (np.interp) at the basis midpoints.  For even
+    degree the code's midpoints 0.5 * (t[i] + t[i+1]) are FLOATS, off the exact midpoints the certificate uses by up to an ulp of the
+    knots; np.interp moves by at most (largest slope of the interpolated array) * (that offset), so row i of the system moves by at most
+    that * lam * |(D'D c)_i| <= ... * lam * 4^d * max|c|.  Returned: this absolute allowance on the residual (0 for the other kinds and
+    for odd degree, whose midpoints are knots).  Negligible (1e-14 relative) on ordinary axes; on 1e6 + [0, 1e-3] an ulp of the knots is
+    1e-7 of the range and the term is what the rounding of the midpoints legitimately costs."""
+    if kind not in ('drpls', 'aspls') or sv['deg'] % 2 == 1 or vec is None or len(vec) < 2:
+        return 0.0
+    dx = np.diff(np.asarray(sv['x'], dtype=float))
+    ok = dx > 0
+    if not np.any(ok):
+        return 0.0
+    slope = float(np.max(np.abs(np.diff(np.asarray(vec, dtype=float))[ok]) / dx[ok]))
+    offs = float(np.spacing(np.max(np.abs(sv['knots']))))
+    return 2.0 * (abs(p1) if kind == 'drpls' else 1.0) * slope * offs * abs(sv['lam']) * 4.0 ** sv['d'] * float(np.max(np.abs(sv['coef'])))
+
+
+# ---------------------------------------------------------------------------------------------------------------------------------
+# One CASE = one call of a spline host, described by a JSON-able `meta` (section, host, x, y, kw, ...).  `case_*` re-execute the call
+# under `Capture` and append the protocol lines of its certificates to `acc`; `evaluate` turns the driver's answers into
+# disagreements.  `correspond` generates metas, `replay` re-executes one.
+class Acc:
+    def __init__(self, ctx=None):
+        self.lines, self.metas, self.dis, self.ctx = [], [], [], ctx
+
+    def count(self, key, n=1):
+        if self.ctx is not None:
+            self.ctx.count(key, n)
+
+    def note(self, text):
+        if self.ctx is not None:
+            self.ctx.notes.append(text)
+
+
+def jkw(kw):
+    return {k: (v.tolist() if isinstance(v, np.ndarray) else (list(v) if isinstance(v, tuple) else v)) for k, v in kw.items()}
+
+
+def unjkw(kw, two_d=False):
+    out = {}
+    for k, v in kw.items():
+        if isinstance(v, list):
+            v = tuple(v) if (two_d and len(v) == 2 and k not in ('weights', 'alpha')) else np.array(v, dtype=float)
+        out[k] = v
+    return out
+
+
+def where(meta):
+    mag = meta.get('x_magnitude', '1')
+    return f'{meta.get("pattern", "?")} x' + ('' if mag == '1' else f' on the axis {mag}')
+
+
+def add_bc(acc, sv, meta):
+    acc.lines.append(f'c07.bc {sv["deg"]} {qs(sv["knots"])} {qs(sv["x"])} {qs(sv["coef"])}')
+    acc.metas.append(('bc', meta, sv['out'], float(np.max(np.abs(sv['coef'])))))
+
+
+def check_knots(acc, sv, meta):
+    kp = knots_problem(sv['knots'], sv['x'], sv['num_knots'], sv['deg'])
+    if kp:
+        acc.dis.append(Disagreement('c07.knots', f'{meta["host"]}:knots', f'{meta["host"]} ({where(meta)}, N={meta["n"]}, num_knots={sv["num_knots"]}, '
+                                    f'degree={sv["deg"]}): {kp}', meta, True))
+
+
+def ref_condition(sv):
+    """2-norm condition number (float estimate) of the documented system of one captured solve: the banded matrix handed to the
+    solver when it was captured, else B'WB + lam D'D rebuilt with SciPy's B-splines (2-D: the Kronecker form)"""
+    from scipy.interpolate import BSpline
+    try:
+        if 'knots_r' in sv:
+            br = BSpline.design_matrix(sv['x'], sv['knots_r'], sv['deg'][0]).toarray()
+            bc = BSpline.design_matrix(sv['z'], sv['knots_c'], sv['deg'][1]).toarray()
+            bb = np.kron(br, bc)
+            a = bb.T @ (np.asarray(sv['w'], dtype=float).ravel()[:, None] * bb)
+            nbr, nbc = br.shape[1], bc.shape[1]
+            dr = np.diff(np.eye(nbr), sv['d'][0], axis=0)
+            dc = np.diff(np.eye(nbc), sv['d'][1], axis=0)
+            a = a + sv['lam'][0] * np.kron(dr.T @ dr, np.eye(nbc)) + sv['lam'][1] * np.kron(np.eye(nbr), dc.T @ dc)
+        elif sv.get('system') is not None:
+            lhs, lower = sv['system']['lhs'], sv['system']['lower']
+            nb = lhs.shape[1]
+            a = np.zeros((nb, nb))
+            if lower:
+                for r in range(lhs.shape[0]):
+                    idx = np.arange(nb - r)
+                    a[idx + r, idx] = lhs[r, :nb - r]
+                    a[idx, idx + r] = lhs[r, :nb - r]
+            else:
+                u = lhs.shape[0] // 2
+                for r in range(lhs.shape[0]):
+                    k = u - r               # row r holds diagonal k (k > 0 above the main diagonal): ab[u + i - j, j] = a[i, j]
+                    for j in range(nb):
+                        i = j - k
+                        if 0 <= i < nb:
+                            a[i, j] = lhs[r, j]
+        else:
+            bb = BSpline.design_matrix(sv['x'], sv['knots'], sv['deg']).toarray()
+            dd = np.diff(np.eye(bb.shape[1]), sv['d'], axis=0)
+            a = bb.T @ (np.asarray(sv['w'], dtype=float)[:, None] * bb) + sv['lam'] * dd.T @ dd
+        if not np.all(np.isfinite(a)):
+            return float('inf')
+        return float(np.linalg.cond(a))
+    except Exception:          # noqa: BLE001
+        return float('inf')
+
+
+COND_MAX = 1e10
+
+
+def axis_raise(acc, meta, ex, recall, cap=None, what=None):
+    """The call raised (or, with `what`, went non-finite).  On an axis of unusual magnitude the SAME call on the reference axis (the
+    x the axis is an increasing affine image of: the same basis, the same system up to the rounding of x) is made: if that one
+    returns a finite baseline AND the failure happened in the FIRST solve (same weights, same data on both axes) AND that system is
+    well conditioned on the reference axis (cond < 1e10: a numerically singular system may fail on either axis, depending on the last
+    bits), the documented P-spline baseline exists and the host failed to produce it because of the unit of x alone."""
+    if ex is not None:
+        acc.count(meta.get('count_raised', 'raised:') + type(ex).__name__)
+    if meta.get('x_magnitude', '1') == '1' or 'x_ref' not in meta:
+        return
+    before = len(cap.solves) if cap is not None else 0
+    if ex is not None and before > 0:
+        # the first solve (identical weights and data on both axes) went through: later steps use weights that depend on the SIGNS of
+        # residuals, which for an interpolating fit (N <= bases) are rounding noise - the iterations of the two axes may legitimately
+        # part ways (a point losing its weight can make the next system singular).  Every completed solve is certified anyway.
+        acc.count('failed-on-axis:after the first solve (not compared)')
+        return
+    try:
+        with np.errstate(all='ignore'):
+            ref = recall(True)
+        ok = bool(np.all(np.isfinite(np.asarray(ref, dtype=float))))
+    except Exception:          # noqa: BLE001
+        ok = False
+    if not ok:
+        return
+    conds = [ref_condition(sv) for sv in cap.solves[before:before + 1]] if cap is not None else []
+    if not conds or max(conds) > COND_MAX:
+        acc.count('failed-on-axis-only:reference system ill-conditioned or not captured (skipped)')
+        return
+    acc.count('failed-on-axis-only')
+    did = f'raised {type(ex).__name__}: {str(ex)[:80]}' if ex is not None else what
+    acc.dis.append(Disagreement('c07.raises', f'{meta["host"]}:fails-on-axis', f'{meta["host"]} ({where(meta)}, N={meta["n"]}, num_knots='
+                                f'{meta.get("num_knots")}, degree={meta.get("deg")}, diff_order={meta.get("d")}, lam={meta.get("lam")}) {did} '
+                                f'although the same call on the reference axis (same relative positions of the points, hence the same basis and the '
+                                f'same first system, condition number {max(conds):.3g}) returns a baseline', meta, True))
+
+
+def axes_of(meta, ref):
+    if ref:
+        return np.array(meta['x_ref'], dtype=float)
+    return np.array(meta['x'], dtype=float)
+
+
+def case_main(acc, meta, rng=None):
+    """STD hosts and pspline_iasls / pspline_drpls / pspline_aspls: every solve along the iteration against the weights in force;
+    with meta['solver'] (section 'asmx') only the banded systems against the Lean assembly models"""
+    from pybaselines import Baseline
+    host, kind = meta['host'], meta['kind']
+    y = np.array(meta['y'], dtype=float)
+    kw = unjkw(meta['kw'])
+    asmx_only = meta.get('section') == 'asmx'
+    n, num_knots, deg, d, lam, p1 = meta['n'], meta['num_knots'], meta['deg'], meta['d'], meta['lam'], meta.get('p1', 0.0)
+    uw, ualpha = kw.get('weights'), kw.get('alpha')
+
+    def call(ref=False, **over):
+        fit = Baseline(axes_of(meta, ref))
+        if meta.get('solver') is not None:
+            fit.banded_solver = meta['solver']
+        return getattr(fit, host)(y, **dict(kw, **over))
+
+    x = axes_of(meta, False)
+    with Capture() as cap:
+        try:
+            with np.errstate(all='ignore'):
+                b, p = call()
+        except Exception as ex:
+            axis_raise(acc, meta, ex, lambda ref: call(ref)[0], cap)
+            return None
+    order = np.argsort(x, kind='mergesort')
+    rules = list(cap.rules)
+    w0 = np.ones(n) if uw is None else uw[order]
+    if kind == 'iasls' and uw is None:
+        w_seq = rules
+    else:
+        w_seq = [w0] + rules
+    alpha = np.ones(n) if ualpha is None else ualpha[order]
+    for k, sv in enumerate(cap.solves):
+        if k >= len(w_seq):
+            break
+        wk = w_seq[k]
+        if not (np.all(np.isfinite(sv['out'])) and np.all(np.isfinite(wk)) and np.all(np.isfinite(sv['coef']))):
+            acc.count('nonfinite-iterate')
+            if k == 0 and np.all(np.isfinite(wk)):
+                # the first solve has finite weights and data: a non-finite spline on this axis only is a failure of the host
+                with Capture() as capr:
+                    axis_raise(acc, meta, None, lambda ref: call(ref)[0], capr, what='returns a first spline that is not finite')
+            break
+        if asmx_only and sv['system'] is None:
+            break
+        m = dict(meta, step=k)
+        if not asmx_only:
+            if k == 0:
+                check_knots(acc, sv, m)
+            acc.lines.append(berr_line(kind, sv, wk, alpha if kind == 'aspls' else [], p1))
+            acc.metas.append(('berr', m, interp_allowance(kind, sv, alpha if kind == 'aspls' else wk, p1)))
+            add_bc(acc, sv, m)
+        if kind != 'std' and sv['system'] is not None:
+            acc.lines.append(asmx_line(kind, sv, wk, alpha if kind == 'aspls' else [], p1))
+            acc.metas.append(('asmx', m, sv, kind, np.array(alpha if kind == 'aspls' else wk, copy=True), p1))
+            acc.count('asmx:' + kind)
+        if kind == 'aspls':
+            rr = np.abs(sv['y'] - sv['out'])
+            alpha = rr / rr.max()
+    if asmx_only:
+        return cap, b, p
+    # the baseline handed back is the last spline, in the caller's order
+    if cap.solves and np.all(np.isfinite(b)):
+        last = cap.solves[-1]['out']
+        back = np.empty_like(last)
+        back[order] = last
+        if not np.array_equal(back, b):
+            acc.dis.append(Disagreement('c07.returned', f'{host}:returned', f'{host} ({where(meta)}, N={n}): the returned baseline is not the last spline '
+                                        f'B c of the iteration (max diff {float(np.max(np.abs(back - b))):.3g})', meta, True))
+    # converged pair
+    if meta.get('converged'):
+        try:
+            with Capture() as cap2:
+                with np.errstate(all='ignore'):
+                    b2, p2 = call(max_iter=60, tol=1e-3)
+            th = p2['tol_history']
+            if len(th) and len(th) < 61 and th[-1] < 1e-3 and np.all(np.isfinite(b2)) and cap2.solves:
+                acc.count('converged-pair')
+                sv = cap2.solves[-1]
+                wret = np.asarray(p2['weights'], float)[order]
+                aret = np.asarray(p2.get('alpha', []), float)
+                aret = aret[order] if len(aret) else aret
+                m = dict(meta, step='converged')
+                acc.lines.append(berr_line(kind, sv, wret, aret if kind == 'aspls' else [], p1))
+                acc.metas.append(('berr', m, interp_allowance(kind, sv, aret if kind == 'aspls' else wret, p1)))
+                back = np.empty_like(sv['out'])
+                back[order] = sv['out']
+                if not np.array_equal(back, b2):
+                    acc.dis.append(Disagreement('c07.returned', f'{host}:returned-converged', f'{host} ({where(meta)}, N={n}): converged run returns a baseline '
+                                                f'that is not the spline of its last solve', m, True))
+        except Exception:      # noqa: BLE001
+            pass
+    return cap, b, p
+
+
+def case_solve(acc, meta):
+    """hosts checked against the weights handed to the solve"""
+    from pybaselines import Baseline
+    host = meta['host']
+    y = np.array(meta['y'], dtype=float)
+    kw = unjkw(meta['kw'])
+
+    def call(ref=False):
+        return getattr(Baseline(axes_of(meta, ref)), host)(y, **kw)
+
+    with Capture() as cap:
+        try:
+            with np.errstate(all='ignore'):
+                call()
+        except Exception as ex:
+            axis_raise(acc, meta, ex, lambda ref: call(ref)[0], cap)
+            return None
+    for k, sv in enumerate(cap.solves[:4]):
+        if sv['custom_penalty'] or sv['extra'] or not np.all(np.isfinite(sv['coef'])):
+            continue
+        m = dict(meta, step=k)
+        if k == 0:
+            check_knots(acc, sv, m)
+        acc.lines.append(berr_line('std', sv, sv['w'], [], 0.0))
+        acc.metas.append(('berr', m))
+        add_bc(acc, sv, m)
+    return cap
+
+
+def case_mpspline(acc, meta):
+    """mpspline: a smoothing fit with lam_smooth, then the baseline fit with lam (documented: both are P-spline systems); the penalty
+    in force is taken from the CALL's arguments, not from the solver object"""
+    from pybaselines import Baseline
+    from scipy.ndimage import grey_closing
+    y = np.array(meta['y'], dtype=float)
+    kw = unjkw(meta['kw'])
+
+    def call(ref=False):
+        return Baseline(axes_of(meta, ref)).mpspline(y, **kw)
+
+    x = axes_of(meta, False)
+    with Capture() as cap:
+        try:
+            with np.errstate(all='ignore'):
+                b, p = call()
+        except Exception as ex:
+            axis_raise(acc, meta, ex, lambda ref: call(ref)[0], cap)
+            return None
+    if len(cap.solves) != 2:
+        acc.note(f'mpspline made {len(cap.solves)} P-spline solves instead of 2')
+        return None
+    order = np.argsort(x, kind='mergesort')
+    ys = y[order]
+    s0, s1 = cap.solves
+    w0 = (ys == grey_closing(ys, 3)).astype(float)
+    check_knots(acc, s0, dict(meta, step='smoothing fit'))
+    acc.lines.append(berr_line('std', dict(s0, lam=kw['lam_smooth'], y=ys), w0, [], 0.0))
+    acc.metas.append(('berr', dict(meta, step='smoothing fit', lam=kw['lam_smooth'])))
+    wfin = np.asarray(p['weights'], float)[order]
+    acc.lines.append(berr_line('std', dict(s1, lam=kw['lam'], y=s0['out']), wfin, [], 0.0))
+    acc.metas.append(('berr', dict(meta, step='baseline fit', lam=kw['lam'])))
+    add_bc(acc, s1, dict(meta, step='baseline fit', lam=kw['lam']))
+    return cap
+
+
+def case_smooth(acc, meta):
+    """utils.pspline_smooth: x exactly as given (sorted or not)"""
+    from pybaselines import utils
+    y = np.array(meta['y'], dtype=float)
+    kw = unjkw(meta['kw'])
+    w = kw.get('weights')
+    n, deg = meta['n'], meta['deg']
+
+    def call(ref=False):
+        return utils.pspline_smooth(y, axes_of(meta, ref), **kw)
+
+    x = axes_of(meta, False)
+    with Capture() as cap:
+        try:
+            out, tck = call()
+        except Exception as ex:
+            axis_raise(acc, dict(meta, count_raised='smooth-raised:'), ex, lambda ref: call(ref)[0], cap)
+            return None
+    sv = cap.solves[-1]
+    meta = dict(meta, step='final')
+    check_knots(acc, sv, meta)
+    # weights in force and data in the caller's order: the basis is built on x as given
+    sv2 = dict(sv, x=x, y=y, coef=np.asarray(tck[1], float))
+    acc.lines.append(berr_line('std', sv2, np.ones(n) if w is None else w, [], 0.0))
+    acc.metas.append(('berr', meta))
+    acc.lines.append(f'c07.bc {deg} {qs(tck[0])} {qs(x)} {qs(tck[1])}')
+    acc.metas.append(('bc', meta, np.asarray(out, float), float(np.max(np.abs(tck[1])))))
+    return cap
+
+
+def case_2d(acc, meta):
+    from pybaselines import Baseline2D
+    host = meta['host'][3:]
+    Y = np.array(meta['y'], dtype=float)
+    kw = unjkw(meta['kw'], two_d=True)
+    (m_, n_), (degr, degc), (kr, kc), (dr, dc), (lamr, lamc) = meta['shape'], meta['deg'], meta['num_knots'], meta['d'], meta['lam']
+    l1r, l1c = kw.get('lam_1', (0.0, 0.0))
+
+    def call(ref=False):
+        xx = np.array(meta['x_ref' if ref else 'x'], dtype=float)
+        zz = np.array(meta['z_ref' if ref else 'z'], dtype=float)
+        return getattr(Baseline2D(xx, zz), host)(Y, **kw)
+
+    with Capture() as cap:
+        try:
+            with np.errstate(all='ignore'):
+                b, p = call()
+        except Exception as ex:
+            axis_raise(acc, dict(meta, count_raised='2d-raised:'), ex, lambda ref: call(ref)[0], cap)
+            return None
+    rule_based = host != 'irsqr'
+    w_seq = [np.ones((m_, n_))] + [r.reshape(m_, n_) for r in cap.rules]
+    if host == 'pspline_iasls':
+        w_seq = w_seq[1:]         # the first weights come from the rule applied to the initial polynomial fit
+    for k, sv in enumerate(cap.solves):
+        if k >= len(w_seq) or not np.all(np.isfinite(sv['coef'])):
+            break
+        wk = w_seq[k] if rule_based else sv['w']
+        if not np.all(np.isfinite(wk)):
+            break
+        m = dict(meta, step=k)
+        if k == 0:
+            for knots, ax, nk, dg, nm in ((sv['knots_r'], sv['x'], kr, degr, 'rows'), (sv['knots_c'], sv['z'], kc, degc, 'columns')):
+                kp = knots_problem(knots, ax, nk, dg)
+                if kp:
+                    acc.dis.append(Disagreement('c07.knots', f'2d.{host}:knots', f'2-D {host} ({nm}, axes {meta.get("x_magnitude", "1")} / '
+                                                f'{meta.get("z_magnitude", "1")}): {kp}', m, True))
+        acc.lines.append(f'c07.berr2 {degr} {degc} {dr} {dc} {q(lamr)} {q(lamc)} {int(host == "pspline_iasls")} {q(l1r)} {q(l1c)} {qs(sv["knots_r"])} {qs(sv["knots_c"])} {qs(sv["x"])} {qs(sv["z"])} '
+                         f'{mat(sv["y"])} {mat(wk)} {mat(sv["coef"])}')
+        acc.metas.append(('berr', m))
+        acc.lines.append(f'c07.bc2 {degr} {degc} {qs(sv["knots_r"])} {qs(sv["knots_c"])} {qs(sv["x"])} {qs(sv["z"])} {mat(sv["coef"])}')
+        acc.metas.append(('bc', m, sv['out'], float(np.max(np.abs(sv['coef'])))))
+    return cap
+
+
+CASES = {'main': case_main, 'asmx': case_main, 'solve': case_solve, 'mpspline': case_mpspline, 'smooth': case_smooth, '2d': case_2d}
+
+
+def evaluate(acc, stats=None):
+    """the driver's answers for the accumulated lines -> disagreements (appended to acc.dis)"""
+    res = drive(acc.lines, timeout=2400)
+    if acc.ctx is not None:
+        acc.ctx.traces += len(acc.lines)
+    stats = stats if stats is not None else {}
+    for ln, r, mt in zip(acc.lines, res, acc.metas):
+        meta = mt[1]
+        if mt[0] == 'berr':
+            a, b_ = (Fraction(t) for t in r.split(' '))
+            be = float(a / b_) if b_ > 0 else (0.0 if a == 0 else float('inf'))
+            allow = (mt[2] / float(b_)) if len(mt) > 2 and mt[2] and b_ > 0 else 0.0
+            stats['berr'] = max(stats.get('berr', 0.0), be - allow)
+            stats['interp_allow'] = max(stats.get('interp_allow', 0.0), allow)
+            if be > BERR_MAX + allow:
+                acc.dis.append(Disagreement('c07.berr', f'{meta["host"]}:system', f'{meta["host"]} ({where(meta)}, N={meta["n"]}, num_knots={meta["num_knots"]}, '
+                                            f'degree={meta["deg"]}, diff_order={meta["d"]}, lam={meta["lam"]}, step {meta["step"]}): the coefficients do not solve the '
+                                            f'documented P-spline system for the weights in force (exact normwise backward error {be:.3g})', meta, True))
+        elif mt[0] == 'asmx':
+            sv, kind = mt[2], mt[3]
+            if '|' not in r:
+                acc.dis.append(Disagreement('c07.model', f'model:asmx:{kind}', f'{meta["host"]}: the driver could not evaluate the assembly model ({r})',
+                                            {k: v for k, v in meta.items() if k not in ('x', 'y', 'x_ref')}, False))
+                continue
+            why, err = asmx_compare(r, sv, kind, mt[4], mt[5])
+            stats['asm'] = max(stats.get('asm', 0.0), err)
+            if why:
+                acc.dis.append(Disagreement('c07.model', f'model:asmx:{kind}', f'{meta["host"]} ({where(meta)}, N={meta["n"]}, num_knots={meta["num_knots"]}, '
+                                            f'degree={meta["deg"]}, diff_order={meta["d"]}, lam={meta["lam"]}, banded_solver={meta.get("solver", "default")}, step '
+                                            f'{meta["step"]}): the banded system handed to the solver differs from the Lean assembly model: {why}',
+                                            meta, False))
+        else:
+            out, cmax = mt[2], mt[3]
+            if ';' in r:
+                exact = np.array([[float(v) for v in parse_qs(row)] for row in r.split(';')])
+            else:
+                exact = np.array([float(v) for v in parse_qs(r)])
+            err = float(np.max(np.abs(exact - out))) / max(cmax, 1e-300) if exact.shape == out.shape else float('inf')
+            stats['bc'] = max(stats.get('bc', 0.0), err)
+            if exact.shape != out.shape or err > 1e-12:
+                acc.dis.append(Disagreement('c07.bc', f'{meta["host"]}:Bc', f'{meta["host"]} ({where(meta)}, N={meta["n"]}, degree={meta["deg"]}, step {meta["step"]}): '
+                                            f'the returned spline differs from B c evaluated from the definition (relative to max|c|: {err:.3g})', meta, True))
+    return stats
+
+
+def on_axis(meta, x, mag, key='x'):
+    """put the case on the x-axis of magnitude `mag` (an increasing affine image of x; the reference axis is kept for the oracle of
+    `axis_raise` and for the replay)"""
+    if mag == '1':
+        meta[key] = np.asarray(x).tolist()
+        meta[key + '_magnitude'] = '1'
+        return meta
+    meta[key + '_ref'] = np.asarray(x).tolist()
+    meta[key] = M.x_magnitude(x, mag)[0].tolist()
+    meta[key + '_magnitude'] = mag
+    return meta
+
+
 def correspond(ctx):
-    from pybaselines import Baseline, Baseline2D, utils
     rng = ctx.np_rng()
-    dis = []
-    lines, metas = [], []
+    acc = Acc(ctx)
     lams = [1e-3, 1e-1, 1e1, 1e3, 1e5] if not ctx.thorough else [10.0 ** k for k in range(-3, 7)]
     patterns = ['uniform', 'random', 'clustered', 'unsorted', 'reversed']
-
-    def add_bc(sv, meta):
-        lines.append(f'c07.bc {sv["deg"]} {qs(sv["knots"])} {qs(sv["x"])} {qs(sv["coef"])}')
-        metas.append(('bc', meta, sv['out'], float(np.max(np.abs(sv['coef'])))))
-
-    def check_knots(sv, meta):
-        kp = knots_problem(sv['knots'], sv['x'], sv['num_knots'], sv['deg'])
-        if kp:
-            dis.append(Disagreement('c07.knots', f'{meta["host"]}:knots', f'{meta["host"]} ({meta["pattern"]} x, N={meta["n"]}, num_knots={sv["num_knots"]}, '
-                                    f'degree={sv["deg"]}): {kp}', meta, True))
+    mags = M.x_magnitude_cycle(ctx.seed, M.X_MAGNITUDE_UNUSUAL)
 
     hosts = [(h, 'std') for h in STD] + [('pspline_iasls', 'iasls'), ('pspline_drpls', 'drpls'), ('pspline_aspls', 'aspls')]
     combos = []
@@ -218,8 +661,10 @@ def correspond(ctx):
         for deg in range(0, 6):
             combos.append((host, kind, deg))
     for host, kind, deg in combos:
-        reps = 4 if ctx.thorough else 2
-        for _ in range(reps):
+        reps = 5 if ctx.thorough else 3
+        for rep in range(reps):
+            # the last repetition of every (host, degree) is on an x-axis of unusual magnitude (round-robin over the kinds)
+            mag = next(mags) if rep == reps - 1 or (ctx.thorough and rep == reps - 2) else '1'
             num_knots = int(rng.choice([2, 3, 5, 8, 13]))
             nb = num_knots + deg - 1
             dmin = 2 if kind in ('iasls', 'drpls') else 1
@@ -243,128 +688,53 @@ def correspond(ctx):
             if kind == 'drpls':
                 p1 = float(rng.choice([0.0, 0.5, 1.0]))
                 kw['eta'] = p1
-            ualpha = None
             if kind == 'aspls' and rng.random() < 0.3:
-                ualpha = np.round(rng.uniform(0.2, 1, n) * 64) / 64
-                kw['alpha'] = ualpha
-            meta = {'host': host, 'kind': kind, 'pattern': pattern, 'n': n, 'x': x.tolist(), 'y': y.tolist(),
-                    'kw': {k: (v.tolist() if isinstance(v, np.ndarray) else v) for k, v in kw.items()}}
-            with Capture() as cap:
-                try:
-                    with np.errstate(all='ignore'):
-                        b, p = getattr(Baseline(x), host)(y, **kw)
-                except Exception as ex:
-                    ctx.count('raised:' + type(ex).__name__)
-                    continue
-            order = np.argsort(x, kind='mergesort')
-            ctx.case((host, pattern, n, num_knots, deg, d, lam, uw is not None, kw['max_iter']), nontrivial=True,
-                     sample={'host': host, 'x': pattern, 'N': n, 'num_knots': num_knots, 'spline_degree': deg, 'diff_order': d, 'lam': lam,
-                             'solves_checked': len(cap.solves)} if len(ctx.samples) < 6 else None)
+                kw['alpha'] = np.round(rng.uniform(0.2, 1, n) * 64) / 64
+            meta = {'section': 'main', 'host': host, 'kind': kind, 'pattern': pattern, 'n': n, 'y': y.tolist(), 'kw': jkw(kw), 'num_knots': num_knots,
+                    'deg': deg, 'd': d, 'lam': lam, 'p1': p1, 'converged': bool(rng.random() < 0.5)}
+            on_axis(meta, x, mag)
+            got = case_main(acc, meta)
+            if got is None:
+                continue
+            ctx.case((host, pattern, mag, n, num_knots, deg, d, lam, uw is not None, kw['max_iter']), nontrivial=True,
+                     sample={'host': host, 'x': pattern, 'x_magnitude': mag, 'N': n, 'num_knots': num_knots, 'spline_degree': deg, 'diff_order': d,
+                             'lam': lam, 'solves_checked': len(got[0].solves)} if len(ctx.samples) < 6 and (mag != '1' or len(ctx.samples) < 3) else None)
             ctx.count('host:' + host)
             ctx.count('x:' + pattern)
+            ctx.count('x-magnitude:' + mag)
             ctx.count('degree:%d' % deg)
             ctx.count('d-vs-degree:' + ('d>deg' if d > deg else 'd<=deg'))
             ctx.count('points-vs-bases:' + ('N<bases' if n < nb else 'N>=bases'))
-            rules = list(cap.rules)
-            w0 = np.ones(n) if uw is None else uw[order]
-            if kind == 'iasls' and uw is None:
-                w_seq = rules
-            else:
-                w_seq = [w0] + rules
-            alpha = np.ones(n) if ualpha is None else ualpha[order]
-            for k, sv in enumerate(cap.solves):
-                if k >= len(w_seq):
-                    break
-                wk = w_seq[k]
-                if not (np.all(np.isfinite(sv['out'])) and np.all(np.isfinite(wk)) and np.all(np.isfinite(sv['coef']))):
-                    ctx.count('nonfinite-iterate')
-                    break
-                m = dict(meta, step=k, num_knots=num_knots, deg=deg, d=d, lam=lam)
-                if k == 0:
-                    check_knots(sv, m)
-                lines.append(berr_line(kind, sv, wk, alpha if kind == 'aspls' else [], p1))
-                metas.append(('berr', m))
-                add_bc(sv, m)
-                if kind != 'std' and sv['system'] is not None:
-                    lines.append(asmx_line(kind, sv, wk, alpha if kind == 'aspls' else [], p1))
-                    metas.append(('asmx', m, sv, kind, np.array(alpha if kind == 'aspls' else wk, copy=True), p1))
-                    ctx.count('asmx:' + kind)
-                if kind == 'aspls':
-                    rr = np.abs(sv['y'] - sv['out'])
-                    alpha = rr / rr.max()
-            # the baseline handed back is the last spline, in the caller's order
-            if cap.solves and np.all(np.isfinite(b)):
-                last = cap.solves[-1]['out']
-                back = np.empty_like(last)
-                back[order] = last
-                if not np.array_equal(back, b):
-                    dis.append(Disagreement('c07.returned', f'{host}:returned', f'{host} ({pattern} x, N={n}): the returned baseline is not the last spline '
-                                            f'B c of the iteration (max diff {float(np.max(np.abs(back - b))):.3g})', meta, True))
-            # converged pair
-            if rng.random() < 0.5:
-                try:
-                    with Capture() as cap2:
-                        with np.errstate(all='ignore'):
-                            b2, p2 = getattr(Baseline(x), host)(y, **dict(kw, max_iter=60, tol=1e-3))
-                    th = p2['tol_history']
-                    if len(th) and len(th) < 61 and th[-1] < 1e-3 and np.all(np.isfinite(b2)) and cap2.solves:
-                        ctx.count('converged-pair')
-                        sv = cap2.solves[-1]
-                        wret = np.asarray(p2['weights'], float)[order]
-                        aret = np.asarray(p2.get('alpha', []), float)
-                        aret = aret[order] if len(aret) else aret
-                        m = dict(meta, step='converged', num_knots=num_knots, deg=deg, d=d, lam=lam)
-                        lines.append(berr_line(kind, sv, wret, aret if kind == 'aspls' else [], p1))
-                        metas.append(('berr', m))
-                        back = np.empty_like(sv['out'])
-                        back[order] = sv['out']
-                        if not np.array_equal(back, b2):
-                            dis.append(Disagreement('c07.returned', f'{host}:returned-converged', f'{host} ({pattern} x, N={n}): converged run returns a baseline '
-                                                    f'that is not the spline of its last solve', m, True))
-                except Exception:
-                    pass
     # hosts checked against the weights handed to the solve
     for host in SOLVE_LEVEL:
         for deg in ((1, 3) if not ctx.thorough else (0, 1, 2, 3, 4, 5)):
-            num_knots = int(rng.choice([3, 6, 10]))
-            nb = num_knots + deg - 1
-            d = int(rng.integers(1, min(4, nb - 1) + 1))
-            pattern = patterns[int(rng.integers(0, len(patterns)))]
-            n = int(rng.choice([nb + 3, 45]))
-            x = make_x(rng, pattern, n)
-            y = make_y(rng, x)
-            lam = float(lams[int(rng.integers(0, len(lams)))])
-            kw = dict(lam=lam, diff_order=d, num_knots=num_knots, spline_degree=deg)
-            if host == 'pspline_mpls':
-                kw['half_window'] = 3
-            else:
-                kw.update(max_iter=2, tol=0.0)
-            with Capture() as cap:
-                try:
-                    with np.errstate(all='ignore'):
-                        b, p = getattr(Baseline(x), host)(y, **kw)
-                except Exception as ex:
-                    ctx.count('raised:' + type(ex).__name__)
+            for mag in ('1', next(mags)):
+                num_knots = int(rng.choice([3, 6, 10]))
+                nb = num_knots + deg - 1
+                d = int(rng.integers(1, min(4, nb - 1) + 1))
+                pattern = patterns[int(rng.integers(0, len(patterns)))]
+                n = int(rng.choice([nb + 3, 45]))
+                x = make_x(rng, pattern, n)
+                y = make_y(rng, x)
+                lam = float(lams[int(rng.integers(0, len(lams)))])
+                kw = dict(lam=lam, diff_order=d, num_knots=num_knots, spline_degree=deg)
+                if host == 'pspline_mpls':
+                    kw['half_window'] = 3
+                else:
+                    kw.update(max_iter=2, tol=0.0)
+                meta = {'section': 'solve', 'host': host, 'kind': 'std', 'pattern': pattern, 'n': n, 'y': y.tolist(), 'kw': kw, 'num_knots': num_knots,
+                        'deg': deg, 'd': d, 'lam': lam}
+                on_axis(meta, x, mag)
+                if case_solve(acc, meta) is None:
                     continue
-            ctx.case((host, pattern, n, num_knots, deg, d, lam), nontrivial=True)
-            ctx.count('host:' + host)
-            ctx.count('x:' + pattern)
-            ctx.count('degree:%d' % deg)
-            meta = {'host': host, 'kind': 'std', 'pattern': pattern, 'n': n, 'x': x.tolist(), 'y': y.tolist(), 'kw': kw, 'num_knots': num_knots,
-                    'deg': deg, 'd': d, 'lam': lam}
-            for k, sv in enumerate(cap.solves[:4]):
-                if sv['custom_penalty'] or sv['extra'] or not np.all(np.isfinite(sv['coef'])):
-                    continue
-                m = dict(meta, step=k)
-                if k == 0:
-                    check_knots(sv, m)
-                lines.append(berr_line('std', sv, sv['w'], [], 0.0))
-                metas.append(('berr', m))
-                add_bc(sv, m)
-    # mpspline: a smoothing fit with lam_smooth, then the baseline fit with lam (documented: both are P-spline systems); the penalty
-    # in force is taken from the CALL's arguments, not from the solver object
-    from scipy.ndimage import grey_closing
-    for _ in range(4 if not ctx.thorough else 12):
+                ctx.case((host, pattern, mag, n, num_knots, deg, d, lam), nontrivial=True)
+                ctx.count('host:' + host)
+                ctx.count('x:' + pattern)
+                ctx.count('x-magnitude:' + mag)
+                ctx.count('degree:%d' % deg)
+    # mpspline
+    for i in range(6 if not ctx.thorough else 16):
+        mag = next(mags) if i % 2 else '1'
         deg = int(rng.integers(1, 5))
         num_knots = int(rng.choice([5, 9, 14]))
         nb = num_knots + deg - 1
@@ -377,36 +747,21 @@ def correspond(ctx):
         lam_smooth = float(10.0 ** int(rng.integers(-3, 1)))
         uw = None if rng.random() < 0.5 else np.round(rng.uniform(0.05, 1, n) * 64) / 64
         kw = dict(lam=lam, lam_smooth=lam_smooth, num_knots=num_knots, spline_degree=deg, diff_order=d, half_window=3, weights=uw)
-        with Capture() as cap:
-            try:
-                with np.errstate(all='ignore'):
-                    b, p = Baseline(x).mpspline(y, **kw)
-            except Exception as ex:
-                ctx.count('raised:' + type(ex).__name__)
-                continue
-        if len(cap.solves) != 2:
-            ctx.notes.append(f'mpspline made {len(cap.solves)} P-spline solves instead of 2')
+        meta = {'section': 'mpspline', 'host': 'mpspline', 'kind': 'std', 'pattern': pattern, 'n': n, 'y': y.tolist(), 'num_knots': num_knots, 'deg': deg,
+                'd': d, 'lam': lam, 'kw': jkw(kw)}
+        on_axis(meta, x, mag)
+        if case_mpspline(acc, meta) is None:
             continue
-        ctx.case(('mpspline', pattern, n, num_knots, deg, d, lam, lam_smooth, uw is not None), nontrivial=True)
+        ctx.case(('mpspline', pattern, mag, n, num_knots, deg, d, lam, lam_smooth, uw is not None), nontrivial=True)
         ctx.count('host:mpspline')
         ctx.count('x:' + pattern)
-        order = np.argsort(x, kind='mergesort')
-        ys = y[order]
-        meta = {'host': 'mpspline', 'kind': 'std', 'pattern': pattern, 'n': n, 'x': x.tolist(), 'y': y.tolist(), 'num_knots': num_knots, 'deg': deg, 'd': d,
-                'kw': {k: (v.tolist() if isinstance(v, np.ndarray) else v) for k, v in kw.items()}}
-        s0, s1 = cap.solves
-        w0 = (ys == grey_closing(ys, 3)).astype(float)
-        lines.append(berr_line('std', dict(s0, lam=lam_smooth, y=ys), w0, [], 0.0))
-        metas.append(('berr', dict(meta, step='smoothing fit', lam=lam_smooth)))
-        wfin = np.asarray(p['weights'], float)[order]
-        lines.append(berr_line('std', dict(s1, lam=lam, y=s0['out']), wfin, [], 0.0))
-        metas.append(('berr', dict(meta, step='baseline fit', lam=lam)))
-        add_bc(s1, dict(meta, step='baseline fit', lam=lam))
+        ctx.count('x-magnitude:' + mag)
     # utils.pspline_smooth: x exactly as given (sorted or not)
     for deg in range(0, 6):
         for pattern in patterns:
             if not ctx.thorough and rng.random() < 0.4:
                 continue
+            mag = next(mags) if rng.random() < 0.5 else '1'
             num_knots = int(rng.choice([2, 4, 7, 12]))
             nb = num_knots + deg - 1
             if nb < 2:
@@ -417,31 +772,25 @@ def correspond(ctx):
             y = make_y(rng, x)
             lam = float(lams[int(rng.integers(0, len(lams)))])
             w = None if rng.random() < 0.5 else np.round(rng.uniform(0.1, 1, n) * 64) / 64
-            with Capture() as cap:
-                try:
-                    out, tck = utils.pspline_smooth(y, x, lam=lam, num_knots=num_knots, spline_degree=deg, diff_order=d, weights=w)
-                except Exception as ex:
-                    ctx.count('smooth-raised:' + type(ex).__name__)
-                    continue
-            ctx.case(('pspline_smooth', pattern, n, num_knots, deg, d, lam, w is not None), nontrivial=True,
+            meta = {'section': 'smooth', 'host': 'pspline_smooth', 'kind': 'std', 'pattern': pattern, 'n': n, 'y': y.tolist(), 'num_knots': num_knots,
+                    'deg': deg, 'd': d, 'lam': lam, 'step': 'final',
+                    'kw': jkw(dict(lam=lam, num_knots=num_knots, spline_degree=deg, diff_order=d, weights=w))}
+            on_axis(meta, x, mag)
+            if case_smooth(acc, meta) is None:
+                continue
+            ctx.case(('pspline_smooth', pattern, mag, n, num_knots, deg, d, lam, w is not None), nontrivial=True,
                      sample={'host': 'utils.pspline_smooth', 'x': pattern, 'N': n, 'num_knots': num_knots, 'spline_degree': deg, 'diff_order': d}
                      if pattern == 'unsorted' and deg == 3 else None)
             ctx.count('host:pspline_smooth')
             ctx.count('x:' + pattern)
+            ctx.count('x-magnitude:' + mag)
             ctx.count('degree:%d' % deg)
-            sv = cap.solves[-1]
-            meta = {'host': 'pspline_smooth', 'kind': 'std', 'pattern': pattern, 'n': n, 'x': x.tolist(), 'y': y.tolist(), 'num_knots': num_knots,
-                    'deg': deg, 'd': d, 'lam': lam, 'step': 'final', 'kw': {'weights': None if w is None else w.tolist()}}
-            check_knots(sv, meta)
-            # weights in force and data in the caller's order: the basis is built on x as given
-            sv2 = dict(sv, x=x, y=y, coef=np.asarray(tck[1], float))
-            lines.append(berr_line('std', sv2, np.ones(n) if w is None else w, [], 0.0))
-            metas.append(('berr', meta))
-            lines.append(f'c07.bc {deg} {qs(tck[0])} {qs(x)} {qs(tck[1])}')
-            metas.append(('bc', meta, np.asarray(out, float), float(np.max(np.abs(tck[1])))))
     # 2-D
     for host in ('pspline_asls', 'pspline_arpls', 'pspline_iarpls', 'pspline_psalsa', 'pspline_airpls', 'pspline_lsrpls', 'irsqr', 'pspline_iasls'):
-        for _ in range(2 if not ctx.thorough else 5):
+        reps2 = 3 if not ctx.thorough else 7
+        for rep in range(reps2):
+            # the last repetition (thorough: the last two) puts each axis on its own unusual magnitude
+            magx, magz = (next(mags), next(mags)) if rep >= reps2 - (2 if ctx.thorough else 1) else ('1', '1')
             m_, n_ = int(rng.integers(6, 12)), int(rng.integers(6, 12))
             degr, degc = int(rng.integers(0, 4)), int(rng.integers(0, 4))
             kr, kc = int(rng.integers(2, 6)), int(rng.integers(2, 6))
@@ -454,7 +803,7 @@ def correspond(ctx):
             dr, dc = int(rng.integers(dmin2, min(3, nbr - 1) + 1)), int(rng.integers(dmin2, min(3, nbc - 1) + 1))
             lamr, lamc = float(10.0 ** int(rng.integers(-2, 4))), float(10.0 ** int(rng.integers(-2, 4)))
             x, z, Y = M.make_data2d(rng, m_, n_)
-            alike = _ == 0 or rng.random() < 0.25
+            alike = rep == 0 or rng.random() < 0.25
             if alike:
                 # the two axes "look alike": square grid, the same degree / knot count / range (hence the same knot vector) on both
                 # axes, but different positions of the points inside the range
@@ -463,53 +812,37 @@ def correspond(ctx):
                 x, z, Y = M.make_data2d(rng, m_, n_)
                 x = 5.0 * np.linspace(0, 1, m_)
                 z = 5.0 * np.linspace(0, 1, n_) ** 3
+                magz = magx
                 ctx.count('2d-axes-alike')
             elif rng.random() < 0.5:
                 x = np.sort(rng.uniform(0, 5, m_))
                 z = np.sort(rng.uniform(-2, 2, n_))
             kw = dict(lam=(lamr, lamc), diff_order=(dr, dc), num_knots=(kr, kc), spline_degree=(degr, degc), max_iter=2, tol=0.0)
-            l1r = l1c = 0.0
             if host == 'pspline_iasls':
-                l1r, l1c = float(rng.choice([1e-3, 0.5, 20.0])), float(rng.choice([1e-3, 0.5, 20.0]))
-                kw['lam_1'] = (l1r, l1c)
-            with Capture() as cap:
-                try:
-                    with np.errstate(all='ignore'):
-                        b, p = getattr(Baseline2D(x, z), host)(Y, **kw)
-                except Exception as ex:
-                    ctx.count('2d-raised:' + type(ex).__name__)
-                    continue
-            ctx.case(('2d', host, m_, n_, degr, degc, kr, kc, dr, dc, lamr, lamc), nontrivial=True,
+                kw['lam_1'] = (float(rng.choice([1e-3, 0.5, 20.0])), float(rng.choice([1e-3, 0.5, 20.0])))
+            meta = {'section': '2d', 'host': '2d.' + host, 'kind': '2d', 'shape': [m_, n_], 'deg': [degr, degc], 'num_knots': [kr, kc], 'd': [dr, dc],
+                    'lam': [lamr, lamc], 'y': Y.tolist(), 'kw': jkw(kw), 'pattern': '2d', 'n': m_ * n_}
+            on_axis(meta, x, magx, 'x')
+            on_axis(meta, z, magz, 'z')
+            if magx != '1' or magz != '1':
+                meta.setdefault('x_ref', meta['x'])
+                meta.setdefault('z_ref', meta['z'])
+                meta['x_magnitude'] = f'{magx} / {magz}'
+            if case_2d(acc, meta) is None:
+                continue
+            ctx.case(('2d', host, m_, n_, degr, degc, kr, kc, dr, dc, lamr, lamc, magx, magz), nontrivial=True,
                      sample={'host': '2-D ' + host, 'shape': [m_, n_], 'spline_degree': [degr, degc], 'num_knots': [kr, kc], 'diff_order': [dr, dc],
-                             'lam': [lamr, lamc]} if host == 'pspline_asls' else None)
+                             'lam': [lamr, lamc], 'axes': [magx, magz]} if host == 'pspline_asls' else None)
             ctx.count('host2d:' + host)
-            rule_based = host != 'irsqr'
-            w_seq = [np.ones((m_, n_))] + [r.reshape(m_, n_) for r in cap.rules]
-            if host == 'pspline_iasls':
-                w_seq = w_seq[1:]         # the first weights come from the rule applied to the initial polynomial fit
-            for k, sv in enumerate(cap.solves):
-                if k >= len(w_seq) or not np.all(np.isfinite(sv['coef'])):
-                    break
-                wk = w_seq[k] if rule_based else sv['w']
-                if not np.all(np.isfinite(wk)):
-                    break
-                meta = {'host': '2d.' + host, 'kind': '2d', 'shape': [m_, n_], 'deg': [degr, degc], 'num_knots': [kr, kc], 'd': [dr, dc],
-                        'lam': [lamr, lamc], 'step': k, 'x': x.tolist(), 'z': z.tolist(), 'y': Y.tolist(), 'kw': kw, 'pattern': '2d', 'n': m_ * n_}
-                if k == 0:
-                    for knots, ax, nk, dg, nm in ((sv['knots_r'], sv['x'], kr, degr, 'rows'), (sv['knots_c'], sv['z'], kc, degc, 'columns')):
-                        kp = knots_problem(knots, ax, nk, dg)
-                        if kp:
-                            dis.append(Disagreement('c07.knots', f'2d.{host}:knots', f'2-D {host} ({nm}): {kp}', meta, True))
-                lines.append(f'c07.berr2 {degr} {degc} {dr} {dc} {q(lamr)} {q(lamc)} {int(host == "pspline_iasls")} {q(l1r)} {q(l1c)} {qs(sv["knots_r"])} {qs(sv["knots_c"])} {qs(sv["x"])} {qs(sv["z"])} '
-                             f'{mat(sv["y"])} {mat(wk)} {mat(sv["coef"])}')
-                metas.append(('berr', meta))
-                lines.append(f'c07.bc2 {degr} {degc} {qs(sv["knots_r"])} {qs(sv["knots_c"])} {qs(sv["x"])} {qs(sv["z"])} {mat(sv["coef"])}')
-                metas.append(('bc', meta, sv['out'], float(np.max(np.abs(sv['coef'])))))
+            ctx.count('x-magnitude-2d:' + magx)
+            ctx.count('x-magnitude-2d:' + magz)
     # the banded systems of pspline_iasls / pspline_drpls / pspline_aspls for every banded_solver (1-3: lower bands for iasls, 4: full
     # bands), dyadic lam / user weights / alpha, sizes at the boundaries (few points per knot interval, d above and below the degree)
     for host, kind in (('pspline_iasls', 'iasls'), ('pspline_drpls', 'drpls'), ('pspline_aspls', 'aspls')):
         for deg in range(0, 6):
-            for _ in range(3 if not ctx.thorough else 8):
+            reps3 = 4 if not ctx.thorough else 10
+            for rep in range(reps3):
+                mag = next(mags) if rep >= reps3 - (2 if ctx.thorough else 1) else '1'
                 num_knots = int(rng.choice([2, 3, 4, 6, 9]))
                 nb = num_knots + deg - 1
                 dmin = 1 if kind == 'aspls' else 2
@@ -532,90 +865,34 @@ def correspond(ctx):
                 if kind == 'drpls':
                     p1 = float(rng.choice([0.0, 0.25, 0.5, 1.0]))
                     kw['eta'] = p1
-                ualpha = None
                 if kind == 'aspls':
-                    ualpha = np.round(rng.uniform(0.1, 1, n) * 64) / 64
-                    kw['alpha'] = ualpha
-                fit = Baseline(x)
-                fit.banded_solver = solver
-                with Capture() as cap:
-                    try:
-                        with np.errstate(all='ignore'):
-                            getattr(fit, host)(y, **kw)
-                    except Exception as ex:
-                        ctx.count('asmx-raised:' + type(ex).__name__)
-                        continue
-                order = np.argsort(x, kind='mergesort')
-                ctx.case(('asmx', host, pattern, n, num_knots, deg, d, lam, p1, solver, kw['max_iter']), nontrivial=True,
+                    kw['alpha'] = np.round(rng.uniform(0.1, 1, n) * 64) / 64
+                meta = {'section': 'asmx', 'host': host, 'kind': kind, 'pattern': pattern, 'n': n, 'num_knots': num_knots, 'deg': deg, 'd': d, 'lam': lam,
+                        'p1': p1, 'solver': solver, 'y': y.tolist(), 'kw': jkw(kw), 'count_raised': 'asmx-raised:'}
+                on_axis(meta, x, mag)
+                if case_main(acc, meta) is None:
+                    continue
+                ctx.case(('asmx', host, pattern, mag, n, num_knots, deg, d, lam, p1, solver, kw['max_iter']), nontrivial=True,
                          sample={'host': host + ' (banded system)', 'x': pattern, 'N': n, 'num_knots': num_knots, 'spline_degree': deg, 'diff_order': d,
-                                 'lam': lam, 'banded_solver': solver} if deg == 3 and _ == 0 else None)
+                                 'lam': lam, 'banded_solver': solver} if deg == 3 and rep == 0 else None)
                 ctx.count('asmx-host:' + host)
                 ctx.count('asmx-solver:%d' % solver)
+                ctx.count('asmx-x-magnitude:' + mag)
                 ctx.count('asmx-d-vs-degree:' + ('d>deg' if d > deg else 'd<=deg'))
-                w_seq = [uw[order]] + list(cap.rules)
-                alpha = np.ones(n) if ualpha is None else ualpha[order]
-                for k, sv in enumerate(cap.solves):
-                    if k >= len(w_seq) or sv['system'] is None or not (np.all(np.isfinite(w_seq[k])) and np.all(np.isfinite(sv['out']))):
-                        break
-                    m = {'host': host, 'kind': kind, 'pattern': pattern, 'n': n, 'num_knots': num_knots, 'deg': deg, 'd': d, 'lam': lam, 'p1': p1,
-                         'solver': solver, 'step': k, 'x': x.tolist(), 'y': y.tolist(),
-                         'kw': {kk: (v.tolist() if isinstance(v, np.ndarray) else v) for kk, v in kw.items()}}
-                    lines.append(asmx_line(kind, sv, w_seq[k], alpha if kind == 'aspls' else [], p1))
-                    metas.append(('asmx', m, sv, kind, np.array(alpha if kind == 'aspls' else w_seq[k], copy=True), p1))
-                    ctx.count('asmx:' + kind)
-                    if kind == 'aspls':
-                        rr = np.abs(sv['y'] - sv['out'])
-                        alpha = rr / rr.max()
     # corpus
     for f in sorted(glob.glob(os.path.join(ROOT, 'corpus', 'C07_*.json'))):
         dd = json.load(open(f))
         r = replay(ctx, dd)
         ctx.case(('corpus', os.path.basename(f)))
         if r:
-            dis.append(Disagreement('c07.corpus', dd['signature'], f'corpus {os.path.basename(f)}: {r}', dd['replay'], True))
-    res = drive(lines, timeout=2400)
-    ctx.traces += len(lines)
-    worst = 0.0
-    worst_bc = 0.0
-    worst_asm = 0.0
-    for ln, r, mt in zip(lines, res, metas):
-        meta = mt[1]
-        if mt[0] == 'berr':
-            a, b_ = (Fraction(t) for t in r.split(' '))
-            be = float(a / b_) if b_ > 0 else (0.0 if a == 0 else float('inf'))
-            worst = max(worst, be)
-            if be > BERR_MAX:
-                dis.append(Disagreement('c07.berr', f'{meta["host"]}:system', f'{meta["host"]} ({meta["pattern"]} x, N={meta["n"]}, num_knots={meta["num_knots"]}, '
-                                        f'degree={meta["deg"]}, diff_order={meta["d"]}, lam={meta["lam"]}, step {meta["step"]}): the coefficients do not solve the '
-                                        f'documented P-spline system for the weights in force (exact normwise backward error {be:.3g})', meta, True))
-        elif mt[0] == 'asmx':
-            sv, kind = mt[2], mt[3]
-            if '|' not in r:
-                dis.append(Disagreement('c07.model', f'model:asmx:{kind}', f'{meta["host"]}: the driver could not evaluate the assembly model ({r})',
-                                        {k: v for k, v in meta.items() if k not in ('x', 'y')}, False))
-                continue
-            why, err = asmx_compare(r, sv, kind, mt[4], mt[5])
-            worst_asm = max(worst_asm, err)
-            if why:
-                dis.append(Disagreement('c07.model', f'model:asmx:{kind}', f'{meta["host"]} ({meta["pattern"]} x, N={meta["n"]}, num_knots={meta["num_knots"]}, '
-                                        f'degree={meta["deg"]}, diff_order={meta["d"]}, lam={meta["lam"]}, banded_solver={meta.get("solver", "default")}, step '
-                                        f'{meta["step"]}): the banded system handed to the solver differs from the Lean assembly model: {why}',
-                                        meta, False))
-        else:
-            out, cmax = mt[2], mt[3]
-            if ';' in r:
-                exact = np.array([[float(v) for v in parse_qs(row)] for row in r.split(';')])
-            else:
-                exact = np.array([float(v) for v in parse_qs(r)])
-            err = float(np.max(np.abs(exact - out))) / max(cmax, 1e-300)
-            worst_bc = max(worst_bc, err)
-            if exact.shape != out.shape or err > 1e-12:
-                dis.append(Disagreement('c07.bc', f'{meta["host"]}:Bc', f'{meta["host"]} ({meta["pattern"]} x, N={meta["n"]}, degree={meta["deg"]}, step {meta["step"]}): '
-                                        f'the returned spline differs from B c evaluated from the definition (relative to max|c|: {err:.3g})', meta, True))
+            acc.dis.append(Disagreement('c07.corpus', dd['signature'], f'corpus {os.path.basename(f)}: {r}', dd['replay'], True))
+    stats = evaluate(acc)
+    worst, worst_bc, worst_asm = stats.get('berr', 0.0), stats.get('bc', 0.0), stats.get('asm', 0.0)
     ctx.notes.append(f'worst exact normwise backward error = {worst:.3g}; worst |returned - B c| / max|c| = {worst_bc:.3g}')
     ctx.hist['worst_backward_error_x1e16'] = int(worst * 1e16)
     ctx.notes.append(f'worst |captured banded system - Lean assembly model| relative to the largest term = {worst_asm:.3g}')
-    return dis
+    ctx.notes.append(f'largest allowance granted for the rounding of the float basis midpoints (drpls / aspls, even degree) = {stats.get("interp_allow", 0.0):.3g}')
+    return acc.dis
 
 
 def search(ctx, hints, lean_failed):
@@ -624,4 +901,18 @@ def search(ctx, hints, lean_failed):
 
 
 def replay(ctx, data):
+    """re-execute the recorded call (section, host, x, y, kw) and every certificate of its section on the current tree"""
+    r = data['replay']
+    fn = CASES.get(r.get('section'))
+    if fn is None or 'x' not in r or 'y' not in r:
+        return None
+    acc = Acc(None)
+    try:
+        fn(acc, {k: v for k, v in r.items() if k != 'step'})
+        evaluate(acc)
+    except Exception as e:      # noqa: BLE001
+        return f'{type(e).__name__}: {e}'
+    for d in acc.dis:
+        if d.property_level:
+            return d.detail
     return None
